@@ -17,7 +17,7 @@
 
    This file holds only statements, each closed by [exact] of a lemma from
    Proofs/, followed by Print Assumptions; plus pins and examples. *)
-From RM Require Import Model.EncSpec Proofs.EncFmt Proofs.EncShape Proofs.EncSimple Proofs.EncImage Proofs.EncObjects Proofs.EncRound.
+From RM Require Import Model.EncSpec Proofs.EncFmt Proofs.EncShape Proofs.EncSimple Proofs.EncImage Proofs.EncObjects Proofs.EncRound Proofs.EncTiming.
 From RM Require Import Gen.Generated.
 Open Scope Z_scope.
 
@@ -282,16 +282,36 @@ Example decoded_objects_ok :
   end.
 Proof. vm_compute. split; reflexivity. Qed.
 
+(* ---------- T04b for timing-point lines (line grammar) ---------- *)
+
+(* every body line of the [TimingPoints] section has the shape time,beat,sig,bank,custom,volume,flag,effects *)
+Theorem C04_timing_lines_shape :
+  forall c last gs ls, group_lines c last gs = Done ls ->
+  Forall (fun l => exists time beat p tc, l = tp_line time beat p tc) ls.
+Proof. intros c last gs ls H. exact (group_lines_shape c gs last ls H). Qed.
+Print Assumptions C04_timing_lines_shape.
+
+(* and such a line -- numbers within the parse limits, positive signature -- is accepted by the
+   decoder's field parser whatever the General settings, with the time, the beat-length field,
+   the custom index, the volume and the uninherited flag it was written from; so
+   parse_timing_points never answers Rejected for it *)
+Theorem C04_timing_line_accepted :
+  forall fmt_f64 fmt_f32 fmt_int, fmt_ok fmt_f64 fmt_f32 fmt_int ->
+  forall time beat p tc, tp_line_ok time beat p tc = true ->
+  forall g, exists r, parse_tp_line g (render fmt_f64 fmt_f32 fmt_int (tp_line time beat p tc)) = Some r /\
+                      l_time r = time /\ l_tc r = tc /\ l_beat r = beat /\ l_custom r = pr_custom p /\ l_vol r = pr_vol p.
+Proof. intros f64 f32 fi Hfmt time beat p tc H. exact (tp_line_accepted f64 f32 fi Hfmt time beat p tc H). Qed.
+Print Assumptions C04_timing_line_accepted.
+
 (* ---------- what is not proved here (full statements kept visible) ----------
 
-   T04b for timing-point lines [P]:
-     forall m ls tp, (C04_shape decomposition) -> simple_ok m = true ->
-       Forall (fun l => forall st, exists st', parse_timing_points st (render l) = Done (st', Ok)) tp.
-   Needs: time / beat length / -100/sv within the parse limits (the slider velocity is
-   clamped to [0.1, 10] and times are finite by C12's value theorems, but sample times
-   collected from hit objects -- start + duration -- can exceed the limit by rounding),
-   signature > 0, bank/custom/volume within i32.  Covered by the `enc` correspondence and
-   the C04 oracle (every encoded timing line is parsed with Beatmap::parse_timing_points).
+   Timing-point lines, what is left [P]:
+     [tp_line_ok] for the lines that enc_timing_points actually writes: signature > 0, bank /
+     custom / volume / effect flags within i32 and the clamped beat length / slider velocity
+     follow from C12's value theorems; the TIMES do not: sample points collected from hit
+     objects sit at start + duration, which can leave the parse limit by rounding (side
+     condition exercised by the oracle).  parse_timing_points itself is total on sorted
+     control points (C13), so "accepted" = "parse_tp_line returns the record".
 
    Hit-object lines, what is left [P]:
      (a) [object_ok] on the decoder's image: not mechanised (the invariant has to be carried
